@@ -35,6 +35,7 @@ def REQUIRED(tier):
     for s in SCHEMAS:
         req[("schema-ok:" if not s.endswith("-neg") else "schema-refused-ok:") + s] = 10
     req["schema:reached-in-place"] = 300
+    req["schema:asked-under-numpy-invalid-raise"] = 300
     return req
 
 
@@ -105,7 +106,7 @@ def classify_refusal(inst, node):
 
 
 _LISTERS = []
-FORCE = {"via": False}
+FORCE = {"via": False, "hostile": False}
 
 
 def reached_in_place(rec, root, rng):
@@ -173,7 +174,26 @@ def run_instance(rec, inst, rng, ctx_sample):
             rec.skip("target not found")
             continue
         rec.ev()
-        ok = bool(rule.can_apply_to(node))
+        hostile = FORCE["hostile"] or rng.random() < 0.25
+        w0 = {"schema": inst.schema, "rule": inst.rule, "text": inst.text, "context": ctx, "full": full, "kind": inst.kind, "params": inst.params,
+              "applicable": inst.applicable}
+        try:
+            if hostile:
+                # the caller's own numpy settings are part of the environment: with floating-point
+                # 'invalid' errors turned into exceptions (ordinary practice when hunting NaNs) the
+                # applicability question must still be answered
+                import numpy as np
+
+                rec.arm("schema:asked-under-numpy-invalid-raise")
+                with np.errstate(invalid="raise"):
+                    ok = bool(rule.can_apply_to(node))
+            else:
+                ok = bool(rule.can_apply_to(node))
+        except Exception as e:
+            w0["numpy_invalid_raise"] = hostile
+            w0["summary"] = f"{inst.rule}.can_apply_to raised {type(e).__name__} on '{inst.text}' in '{full}'" + (" (numpy invalid='raise' active in the caller)" if hostile else "")
+            rec.violation("C08", f"schema-raises/{inst.schema}/{type(e).__name__}", "applying a documented schema instance raised", w0)
+            continue
         w = {"schema": inst.schema, "rule": inst.rule, "text": inst.text, "context": ctx, "full": full, "kind": inst.kind, "params": inst.params,
              "applicable": inst.applicable}
         if via is not None:
@@ -559,5 +579,6 @@ def replay(rec, cfg, w):
     rec.accept = {"schema"}
     inst = rebuild(w)
     FORCE["via"] = bool(w.get("reached_in_place"))
+    FORCE["hostile"] = bool(w.get("numpy_invalid_raise"))
     for i in range(12 if FORCE["via"] else 1):   # the in-place detour picks its swap node at random
         run_instance(rec, inst, cfg.rng(f"replay{i}"), [w["context"]] if FORCE["via"] and w.get("context") else inst.contexts)
